@@ -54,13 +54,15 @@ RULE = ("random result tables (0-4 variables, 0-8 rows, any pattern of unbound c
         "leading/trailing unbound columns; terms of every kind from a pool with control characters, quotes, "
         "backslashes, tabs, line ends, U+0085/U+2028, non-BMP) built directly as Result objects or by a real "
         "graph.query(), and both ASK answers; serialised and parsed back in JSON, XML, CSV, and rendered as TSV "
-        "under 3 choice streams; non-trivial = a SELECT table with at least one bound and one unbound cell; "
+        "under 3 choice streams; text level: every string token of the JSON / XML documents and the whole CSV document rdflib writes, "
+        "plus foreign and malformed tokens / renderings / texts, through the Lean readers and the real ones; non-trivial = a SELECT table with at least one bound and one unbound cell; "
         "distinct = distinct (vars, rows, choices)")
 ASSUMPTIONS = ["terms are fixed points of rdflib's literal normalisation (what rdflib hands out by default, C09)",
                "IRIs, blank node labels, language tags and variable names are syntactically legal (non-empty, "
                "IRIREF / BLANK_NODE_LABEL / LANGTAG / VARNAME); no lone surrogates",
-               "byte level of json, expat/ElementTree and csv is exercised here but not modelled, except XML "
-               "end-of-line normalisation and the XML 1.0 Char range"]
+               "since round g the character level is modelled (JSON string escaping / scanning, csv quoting / reader state machine, XML "
+               "character-data and attribute-value escaping / reading); document syntax around the strings (JSON punctuation, XML markup) and "
+               "byte encodings are exercised here but not modelled"]
 TRUSTED = ["harness/c16.py generators, canonicalisation and reference TSV writer (tied to Lean Spec.Tsv.render on "
            "every case)", "lean/RV/C16/Drive.lean line protocol", "Python json / csv / xml.etree / expat"]
 
